@@ -17,8 +17,11 @@ enum Bad {
     SlowDrip,
     /// sends complete requests and hangs up without reading a single reply
     SendAndVanish,
+    /// pipelines thousands of requests and never reads: its replies back up until the service
+    /// blocks writing to it (whatever the service holds at that moment, it holds for good)
+    Flood,
 }
-const BADS: &[Bad] = &[Bad::Idle, Bad::HalfMessage, Bad::CloseMidMessage, Bad::Garbage, Bad::SlowDrip, Bad::SendAndVanish, Bad::SendAndVanish];
+const BADS: &[Bad] = &[Bad::Idle, Bad::HalfMessage, Bad::CloseMidMessage, Bad::Garbage, Bad::SlowDrip, Bad::SendAndVanish, Bad::SendAndVanish, Bad::Flood];
 
 pub fn round(ctx: &Ctx, address: &str, tname: &str, nclients: usize, nbad: usize, seed: u64, round_no: usize) {
     let mut rng = Rng::lane(seed, 1300 + round_no as u64);
@@ -41,6 +44,15 @@ pub fn round(ctx: &Ctx, address: &str, tname: &str, nclients: usize, nbad: usize
                 }
                 Bad::Garbage => {
                     let _ = c.write_all(b"\xff\xfe{{{{not json\0");
+                }
+                Bad::Flood => {
+                    let mut b = Vec::new();
+                    for k in 0..4000 {
+                        let kind = *rng.pick(&[Kind::GetInfo, Kind::GetInfo, Kind::Echo, Kind::DescKnown]);
+                        b.extend(Req::new(kind, Flags { more: false, oneway: false }, &format!("R{}FLOOD{}_{}", round_no, peers.len(), k)).to_bytes());
+                    }
+                    c.set_write_timeout(Duration::from_millis(300));
+                    let _ = c.write_all(&b);
                 }
                 Bad::SendAndVanish => {
                     // replies to these can never be delivered; whatever the server buffered for
@@ -371,7 +383,7 @@ pub fn main(ctx: &Ctx) -> i32 {
 }
 
 fn main_rounds(ctx: &Ctx) {
-    ctx.set_rule("2-64 simultaneous clients on unix and TCP against one listen() server (max_worker_threads 200), each pipelining a random token-tagged sequence at a random depth with random segmentation/delays, beside 0-8 misbehaving peers (idle, half a message, close mid-message, garbage, one byte every 2 ms) that stay open until every well-behaved client is done; plus a hostile peer sending requests nested 200..2*10^6 deep beside 4 pipelining clients (server in a child process); plus quiet-period histories (burst of 4 simultaneous connections, closed in opening/reverse/rotated order, 1.1/2.6/5.5 s of silence (thorough: up to 61 s), then 4 connections opened one by one and left open, each of which must be answered beside the idle ones); distinct = (client count, transport, misbehaviour mix, observed completion order); non-trivial = >=2 clients overlapped in logical time");
+    ctx.set_rule("2-64 simultaneous clients on unix and TCP against one listen() server (max_worker_threads 200), each pipelining a random token-tagged sequence at a random depth with random segmentation/delays, beside 0-8 misbehaving peers (idle, half a message, close mid-message, garbage, one byte every 2 ms, thousands of pipelined requests never read) that stay open until every well-behaved client is done; plus a hostile peer sending requests nested 200..2*10^6 deep beside 4 pipelining clients (server in a child process); plus quiet-period histories (burst of 4 simultaneous connections, closed in opening/reverse/rotated order, 1.1/2.6/5.5 s of silence (thorough: up to 61 s), then 4 connections opened one by one and left open, each of which must be answered beside the idle ones); distinct = (client count, transport, misbehaviour mix, observed completion order); non-trivial = >=2 clients overlapped in logical time");
     ctx.assume("tokens are globally unique (round, client, index), so a foreign byte is recognisable; OS schedules are sampled, not controlled");
     let rounds = ctx.tier.pick(120usize, 6000usize);
     for (ti, &tr) in [Transport::UnixPath, Transport::Tcp].iter().enumerate() {
